@@ -299,6 +299,30 @@ def m_str_eq(ctx, args, callee):
     return Not(r) if callee.endswith('::ne') else r
 
 
+@model(r'^<(&?)(std::string::String|str|&str) as (Ord|PartialOrd)>::(cmp|partial_cmp)$', 'str_cmp')
+def m_str_cmp(ctx, args, callee):
+    """byte-lexicographic order of strings"""
+    a = as_str(ctx, args[0]); b = as_str(ctx, args[1])
+    def mk(lt, eq):
+        r = EnumV(simplify(If(lt, BitVecVal(-1, 64), If(eq, BitVecVal(0, 64), BitVecVal(1, 64)))), {}, 'Ordering')
+        return some(r) if 'partial_cmp' in callee else r
+    if a.s is not None and b.s is not None:
+        x, y = a.s.encode(), b.s.encode()
+        r = EnumV(-1 if x < y else (0 if x == y else 1), {}, 'Ordering')
+        return some(r) if 'partial_cmp' in callee else r
+    if isinstance(a, SpecialStr) or isinstance(b, SpecialStr):
+        raise Unmodelled('string order of symbolic numerals')
+    if (a.tab is not None or a.s is not None) and (b.tab is not None or b.s is not None):
+        ta = a.tab if a.tab is not None else {None: a.s}
+        tb = b.tab if b.tab is not None else {None: b.s}
+        def c(v, i):
+            return BoolVal(True) if i is None else v.var == i
+        lt = Or([And(c(a, i), c(b, j)) for i, x in ta.items() for j, y in tb.items() if x.encode() < y.encode()] or [BoolVal(False)])
+        eq = Or([And(c(a, i), c(b, j)) for i, x in ta.items() for j, y in tb.items() if x == y] or [BoolVal(False)])
+        return mk(lt, eq)
+    raise Unmodelled('string order of %r / %r' % (a, b))
+
+
 @model(r'^(core::)?str::<impl str>::starts_with$')
 def m_starts_with(ctx, args, callee):
     _s0 = as_str(ctx, args[0])
@@ -902,7 +926,7 @@ def deep_clone(ctx, v):
     return v
 
 
-@model(r'^<.* as Clone>::clone$', 'generic_clone')
+@model(r'^<.* as Clone>::clone$|^<.* as ToOwned>::to_owned$', 'generic_clone')
 def m_clone(ctx, args, callee):
     return deep_clone(ctx, ctx.deref(args[0]))
 
@@ -937,6 +961,23 @@ def m_box_deref(ctx, args, callee):
     if isinstance(bx, BoxV):
         return Ref(bx.cell)
     raise Unmodelled('Box deref of %r' % (type(bx).__name__,))
+
+
+@model(r'^Box::new_uninit$')
+def m_box_new_uninit(ctx, args, callee):
+    """Box<MaybeUninit<T>>: layout MaybeUninit { uninit: (), value: ManuallyDrop(MaybeDangling(T)) } as this nightly prints it"""
+    return BoxV(Agg([UNIT, Agg([Agg([UNINIT])])], 'MaybeUninit'))
+
+
+@model(r'^std::boxed::box_assume_init_into_vec_unsafe$|^alloc::boxed::box_assume_init_into_vec_unsafe$')
+def m_box_into_vec(ctx, args, callee):
+    b = args[0]
+    v = b.cell.v
+    if isinstance(v, Agg) and v.ty == 'MaybeUninit':
+        v = v.f[1].f[0].f[0]
+    if isinstance(v, Agg):
+        return Seq(list(v.f))
+    raise Unmodelled('box_assume_init_into_vec_unsafe of %r' % (type(v).__name__,))
 
 
 @model(r'^Rc::new$|^Arc::new$')
@@ -1162,7 +1203,7 @@ def m_to_vec(ctx, args, callee):
     return Seq([deep_clone(ctx, c.v) for c in s.items])
 
 
-@model(r'^(std|core|alloc)::slice::<impl \[.*\]>::into_vec$|^std::boxed::box_assume_init_into_vec_unsafe$|^<Vec<.*> as From<.*>>::from$')
+@model(r'^(std|core|alloc)::slice::<impl \[.*\]>::into_vec$|^<Vec<.*> as From<.*>>::from$')
 def m_into_vec(ctx, args, callee):
     v = args[0]
     if isinstance(v, BoxV):
@@ -1193,6 +1234,38 @@ def m_reverse(ctx, args, callee):
     s = as_seq(ctx, args[0])
     vals = [c.v for c in s.items][::-1]
     for c, v in zip(s.items, vals):
+        c.v = v
+    return UNIT
+
+
+@model(r'^(std|core|alloc)::slice::<impl \[.*\]>::sort_by$|^(std|core|alloc)::slice::<impl \[.*\]>::sort_unstable_by$')
+def m_sort_by(ctx, args, callee):
+    """stable insertion sort driven by the real comparator closure (forks where its verdict is symbolic)"""
+    s_ = as_seq(ctx, args[0])
+    cells = s_.items
+    n = len(cells)
+    for i in range(1, n):
+        j = i
+        while j > 0:
+            r = ctx.call_closure(args[1], [Ref(cells[j - 1]), Ref(cells[j])])
+            d = BitVecVal(r.d, 64) if isinstance(r.d, int) else r.d
+            if not ctx.decide(d == BitVecVal(1, 64)):
+                break
+            cells[j - 1].v, cells[j].v = cells[j].v, cells[j - 1].v
+            j -= 1
+    return UNIT
+
+
+@model(r'^(std|core|alloc)::slice::<impl \[.*\]>::sort$|^(std|core|alloc)::slice::<impl \[.*\]>::sort_unstable$')
+def m_sort(ctx, args, callee):
+    s_ = as_seq(ctx, args[0])
+    try:
+        keys = [key_of(ctx, c.v) for c in s_.items]
+    except Unmodelled:
+        raise Unmodelled('sort of symbolic values')
+    order = sorted(range(len(keys)), key=lambda i: keys[i])
+    vals = [s_.items[i].v for i in order]
+    for c, v in zip(s_.items, vals):
         c.v = v
     return UNIT
 
